@@ -676,3 +676,34 @@ class PeriodGetSubperiods(Contract):
 CONTRACTS = [InstantDate(), InstantOffset(), PeriodStop(), PeriodDays(), PeriodSizeInDays(), PeriodSizeInMonths(),
              PeriodSizeInYears(), PeriodSizeInWeeks(), PeriodSizeInWeekdays(), PeriodContains(),
              PeriodIntersection(), PeriodOffset(), PeriodGetSubperiods()] + [make_named(w)() for w in NAMED]
+
+
+# ---- native probe scenarios (native/c04_probes.py): when an obligation of a period contract fails without a failing input of its own
+# ---- (or cannot be generated at all), the scenario suite is run on the real code; a scenario that fails there is the failing input
+C04_NATIVE = "import sys; sys.path.insert(0, '/verif/native')\nimport c04_probes\noutcome = c04_probes.run(call)\n"
+
+
+def _c04_probes(self, case):
+    return [{"callee": self.name, "script": C04_NATIVE, "scenarios": "calendar-family-in-three-orders"}]
+
+
+_orig_judges = {}
+
+
+def _c04_judge(self, I, case, call, nat):
+    if call.get("scenarios") != "calendar-family-in-three-orders":
+        # a call descriptor derived from the solver's model: judged by re-evaluating the postcondition
+        from pyvc import replay as RP
+        return RP.evaluate_post(I, self, case, call, nat)
+    if nat.get("kind") == "harness-error":
+        return "undecided", str(nat)[:300]
+    if nat["kind"] == "raise":
+        return "undecided", "probe scenario raised " + nat.get("exc", "") + ": " + nat.get("msg", "")
+    return ("satisfies", "all calendar scenarios hold") if nat["value"].get("ok") else ("violates", "; ".join(nat["value"].get("problems", []))[:600])
+
+
+for _c in CONTRACTS:
+    _cls = type(_c)
+    if "probes" not in _cls.__dict__ and not any("judge_native" in k.__dict__ for k in _cls.__mro__):
+        _cls.probes = _c04_probes
+        _cls.judge_native = _c04_judge
